@@ -734,8 +734,34 @@ def run(ctx):
     }
 
 
-PARTIAL = []
-ASSUMPTIONS = []
+PARTIAL = [
+    "announced_eq_following holds below 65535 rectangles only: nrects_wraps_counterexample / "
+    "sentinel_collision_counterexample prove the excluded region really fails (finding c03-nrects-16bit, "
+    "replayed on the real code from corpus/C03/known-nrects-*.ops)",
+    "rects_inside_scaled_partial: for scaled clients only the integer clamp of rfbScaledCorrection is proved; its "
+    "floating-point head is executed (Lean Float) and compared with the real code on every run",
+    "Tight with solid-area search (client enabled LastRect, w*h >= 4096): number/geometry of rectangles depend on "
+    "the pixels; covered by announced_open_form (0xFFFF + LastRect, only for LastRect clients) and by the strict "
+    "parser at run time, not by a count theorem",
+    "lengths_match covers Hextile and Tight payloads through the generic RectWF (the parser's own walk); explicit "
+    "well-formedness constructors are proved for Raw, CopyRect, RRE, CoRRE, Zlib/ZRLE/ZYWRLE/Ultra, cursors, "
+    "payload-free pseudo-encodings, Tight-fill",
+    "payload CONTENTS (pixels, compressed streams) are C01's subject; ServerCutText extended-clipboard contents C18; "
+    "FileTransfer messages C19 (never generated here); colour-mapped (non true-colour) screens and TLS/WebSocket "
+    "transports are not exercised",
+    "only_advertised is the history reading of the statement (encoding listed in SOME SetEncodings message): the code "
+    "keeps the previous preferred encoding when a new list names none, and never resets enableExtendedClipboard",
+]
+ASSUMPTIONS = [
+    "single-threaded application-driven event loop; one client message per op, event loop pumped to idle after each op",
+    "generators act as conforming clients: FramebufferUpdateRequests stay inside the framebuffer size the client "
+    "can know, pixel formats are valid true-colour 8/16/32 bpp formats, client messages only in the normal phase",
+    "region contents of each update (rectangle lists, order) are taken from the pre-encode hook; region algebra "
+    "itself is C11/C02",
+    "harness is built with -fno-sanitize=alignment (vendored minilzo does unaligned 32-bit accesses by design and "
+    "aborts under UBSan's alignment check for most Ultra rectangles); every other ASan/UBSan/LSan check is on",
+    "ServerInit name: the code copies at most 127 bytes of desktopName (strncpy); the oracle accepts exactly that prefix",
+]
 
 META = {
     "technique": "Lean 4 theorems about the planning model of rfbSendFramebufferUpdate and a strict RFB server-stream "
@@ -744,6 +770,13 @@ META = {
                  "stream is parsed by that same Lean parser and compared with the model's predicted rectangle headers",
     "level_text": "Proof about a hand-written model; tied to the code by constants regenerated from /repo (T0) and by an "
                   "exact differential run on every check.",
-    "level_note": "see docs/C03.md",
+    "level_note": "Trusted: Lean kernel (axioms propext/Classical.choice/Quot.sound only), T0 probe tools/consts/c03.{c,py} "
+                  "and T1 translator (count expressions regenerated from the C text, Props.C03.T1), the C harness / "
+                  "generators / compiled Lean driver (testing; distribution in evidence). Modelled: wire grammar of every "
+                  "server message and rectangle encoding (lengths only for compressed payloads), planning half of "
+                  "rfbSendFramebufferUpdate, emission splitters of CoRRE/Zlib/Ultra/Tight-simple, SetEncodings state machine, "
+                  "handshake for 3.3/3.7/3.8/3.889 with None and VncAuth, ServerInit. Partial: >= 65535 rectangles (proved to "
+                  "fail, known finding), Tight solid-area search, floating-point part of scaling, payload contents (C01). "
+                  "See docs/C03.md.",
     "design_ref": "DESIGN.md section 7, C03",
 }
